@@ -97,7 +97,7 @@ PROPS = {
         runs={"quick": [["lsh-C04", "--scenarios", "20", "--ops", "120"]], "thorough": [["lsh-C04", "--scenarios", "100", "--ops", "500"]]},
         trusted=SEARCH_TRUST + ["the node priority queue of the model is a transliteration of container/heap (up/down); hyperplane distances and sides for the query are supplied by the implementation's distanceToHyperplane"],
         statement="soundness of LSH search for every forest and oracle; non-empty and single-leaf = exact under C05",
-        partial="proved for every forest, oracle, search_k and K: lsh_sound; knn_finds_something (every listed id live + some listed document passes the filter => non-empty result; the proof's hypothesis 'hyperplane distance <= initial radius' exposed a defect, fixed in /repo 93c5d62, and is now discharged by the regenerated fact that the traversal starts with +Inf); single_leaf_equals_exact (one leaf per tree => the result is the exact scan over a leaf's order, and exact answers have order-independent distances); node_queue_is_a_multiset. The same is checked by direct oracles on the implementation and by exact correspondence of the traversal (result distances and pointsSearched) with the Lean search. NaN distances are outside the Nat-encoded model (the harness skips them; C06 proves distances are not NaN)",
+        partial="proved for every forest, oracle, search_k and K: lsh_sound; knn_finds_something (every listed id live + some listed document passes the filter => non-empty result; the proof's hypothesis 'hyperplane distance <= initial radius' exposed a defect, fixed in /repo 93c5d62, and is now discharged by the regenerated fact that the traversal starts with +Inf); single_leaf_equals_exact (one leaf per tree => the result is the exact scan over a leaf's order, and exact answers have order-independent distances); small_collection_has_single_leaves (any history during which the collection never holds more than the leaf threshold keeps every tree a single leaf listing exactly the live ids — the hypothesis of the former); node_queue_is_a_multiset. The same is checked by direct oracles on the implementation and by exact correspondence of the traversal (result distances and pointsSearched) with the Lean search. NaN distances are outside the Nat-encoded model (the harness skips them; C06 proves distances are not NaN)",
     ),
     "C05": dict(
         modules=["Syzgy.Props.C05", "Syzgy.Props.C05Real"], ties=["Search"],
